@@ -10,7 +10,8 @@ Theorem C08_code_conforms :
   skel_eqb skel_Process_Run exp_Process_Run
   && skel_eqb skel_taskQueue_NextTaskDone exp_taskQueue_NextTaskDone
   && skel_eqb skel_OutPort_Send exp_OutPort_Send
-  && skel_eqb skel_InPort_Send exp_InPort_Send = true.
+  && skel_eqb skel_InPort_Send exp_InPort_Send
+  && skel_eqb skel_Process_createTasks exp_Process_createTasks = true.   (* tasks are built one after the other, in the order the input sets arrive *)
 Proof. vm_compute. reflexivity. Qed.
 
 (* in every reachable state, whatever order the tasks finished in, the sequence sent on an out-edge is the sequence of
@@ -58,7 +59,8 @@ Proof. intros c C N l s H. exact (proj1 (Port.merge_is_orderly c C N l s H)). Qe
    resolved to every implementation) is one the models were compared with -- a helper that is new to the cone, or a new call
    of an old one, changes a list (the lists are regenerated from /repo on every run; ExpectedCones.v holds the accepted ones) *)
 Theorem C08_cone_conforms :
-  strs_eqb cone_Process_Run exp_cone_Process_Run
+  strs_eqb cone_Process_createTasks exp_cone_Process_createTasks
+  &&   strs_eqb cone_Process_Run exp_cone_Process_Run
   && strs_eqb cone_taskQueue_NextTaskDone exp_cone_taskQueue_NextTaskDone
   && strs_eqb cone_OutPort_Send exp_cone_OutPort_Send
   && strs_eqb cone_InPort_Send exp_cone_InPort_Send = true.
